@@ -18,6 +18,6 @@ one() {
   rm -rf "$scratch"
 }
 if [ "$1" = "--one" ]; then one "$2" "$3"; exit 0; fi
-ls -d "$(dirname "$0")"/seeded/*/ | xargs -P "$par" -I{} "$0" --one {} "$tier" | tee "$(dirname "$0")/.work/seeds_all.log"
+mkdir -p "$(dirname "$0")/.work"; ls -d "$(dirname "$0")"/seeded/*/ | xargs -P "$par" -I{} "$0" --one {} "$tier" | tee "$(dirname "$0")/.work/seeds_all.log"
 if grep -v "rc=1 " "$(dirname "$0")/.work/seeds_all.log" | grep -q "^seed"; then exit 1; fi
 exit 0
